@@ -145,15 +145,13 @@ theorem mode_step (P : Option Nat → Prop) (ino0 : List Inode) (s s' : St) (fs 
   | unlinkDest => simp [St.step] at hs
   | unknown => simp [St.step] at hs
 
-/-- what is known about the destination's entry before publication: the entry from the start, or -
-    when there was none - the environment's file -/
-def PD (d0 : Option Nat) (e : Nat) (d : Option Nat) : Prop := d = d0 ∨ (d0 = none ∧ d = some e)
+/-- nothing is recorded about the destination's entry inside `GInv` (the exact entry is `J.dest`) -/
+abbrev PT : Option Nat → Prop := fun _ => True
 
-/-- the standing assumptions about the state at the start: well-formed, nothing open, directory
-    durable, and the environment's inode allocated but not linked -/
+/-- assumptions about the state at the start used by the property theorems: well-formed, and the
+    environment's inode allocated but not linked -/
 structure Start (fs0 : FS) (e : Nat) : Prop where
   wf : fs0.WF
-  hist : fs0.hist = []
   elt : e < fs0.inodes.length
   eino : fs0.inodes[e]? = some envInode
   edest : fs0.dir.dest ≠ some e
@@ -161,7 +159,7 @@ structure Start (fs0 : FS) (e : Nat) : Prop where
 
 structure J (fs0 : FS) (m : M) (s : St) (W : Bytes) : Prop where
   run : St.init.run m.tr = some s
-  inv : GInv (PD fs0.dir.dest m.envIno) fs0.inodes s m.fs W
+  inv : GInv PT fs0.inodes s m.fs W
   dest : s.published = false → m.fs.dir.dest = (if m.envDone then some m.envIno else fs0.dir.dest)
   envd : m.envDone = true → fs0.dir.dest = none
   pinit : s.phase = .init → (Ev.unlinkPart ∉ m.tr → m.fs.dir.part = fs0.dir.part) ∧
@@ -179,10 +177,10 @@ theorem publishes_of_mem_link (t : List Ev) (h : Ev.linkPartDest ∈ t) : publis
     · simp [publishes]
     · simp [ih h]
 
-theorem J_start (fs0 : FS) (e : Nat) (h : Start fs0 e) : J fs0 (M.start fs0 e) St.init [] := by
+theorem J_start (fs0 : FS) (e : Nat) : J fs0 (M.start fs0 e) St.init [] := by
   refine ⟨by simp [M.start, St.run], ?_, by simp [M.start], by simp [M.start], by simp [M.start],
     by simp [St.init], by simp [M.start], by simp [M.start]⟩
-  simp [GInv, St.init, M.start, h.hist, PD]
+  simp [GInv, St.init, M.start, PT]
 
 theorem J_env (fs0 : FS) (m : M) (s : St) (W : Bytes) (a : Act) (h : J fs0 m s W) : J fs0 (m.env a) s W := by
   unfold M.env
@@ -199,16 +197,7 @@ theorem J_env (fs0 : FS) (m : M) (s : St) (W : Bytes) (a : Act) (h : J fs0 m s W
     refine ⟨h.run, ?_, by simp [FS.setDir], fun _ => hd0, by simpa [FS.setDir] using h.pinit,
       by simpa [FS.setDir] using h.mode, by simpa [FS.setDir] using h.um, ?_⟩
     · have hi := h.inv
-      cases ph <;> simp [St.published] at hunp <;> simp only [GInv] at hi ⊢ <;> simp [FS.setDir, PD, hd0]
-      · obtain ⟨h1, h2, h3, h4, h5⟩ := hi
-        refine ⟨h1, ⟨by simp [hd], ?_⟩, h4, h5⟩
-        intro d hdm; have := h3 d hdm; simpa [PD, hd0] using this
-      · obtain ⟨h2, h3, h4, h5⟩ := hi
-        refine ⟨⟨by simp [hd], ?_⟩, h4, h5⟩
-        intro d hdm; have := h3 d hdm; simpa [PD, hd0] using this
-      · obtain ⟨h2, h3, hp0, x, h5, h6⟩ := hi
-        refine ⟨⟨by simp [hd], ?_⟩, hp0, ⟨x, h5⟩, h6⟩
-        intro d hdm; have := h3 d hdm; simpa [PD, hd0] using this
+      cases ph <;> simp [St.published] at hunp <;> simp only [GInv] at hi ⊢ <;> simpa [FS.setDir, PT] using hi
     · intro hl
       exfalso
       have hp : St.published ⟨ph, op, db, us⟩ = true := by
@@ -373,7 +362,7 @@ theorem J_congr (fs0 : FS) (m m' : M) (s : St) (W : Bytes) (h : J fs0 m s W)
     (h1 : m'.fs = m.fs) (h2 : m'.tr = m.tr) (h3 : m'.envIno = m.envIno) (h4 : m'.envDone = m.envDone) :
     J fs0 m' s W := by
   obtain ⟨a, b, c, d, e, f, g, i⟩ := h
-  exact ⟨by rw [h2]; exact a, by rw [h1, h3]; exact b, by rw [h1, h3, h4]; exact c, by rw [h4]; exact d,
+  exact ⟨by rw [h2]; exact a, by rw [h1]; exact b, by rw [h1, h3, h4]; exact c, by rw [h4]; exact d,
     by rw [h1, h2]; exact e, by rw [h1, h2]; exact f, by rw [h1]; exact g, by rw [h2, h4]; exact i⟩
 
 theorem exe_unlink_ok (fs0 : FS) (m : M) (s : St) (W : Bytes) (h : J fs0 m s W)
@@ -471,5 +460,1122 @@ theorem callClose_spec (fs0 : FS) (plan : Plan) (m : M) (s s' : St) (W : Bytes)
     obtain ⟨k1, k2, k3, k4, k5, k6⟩ := key (m.env .appear) (J_env fs0 m s W _ h)
     obtain ⟨e1, e2, e3, e4, e5⟩ := env_fields m .appear
     exact ⟨k2, fun _ => by rw [k3, e3], fun hn => absurd k1 hn, by rw [k4, e2], by rw [k5, e4], by rw [k6, e5]⟩
+
+def modeEv : Ev → Bool
+  | .openPart _ _ _ => true
+  | .chmodPart _ => true
+  | _ => false
+
+/-- `m'` is a later state of the same save: its trace extends `m`'s by events that neither create
+    nor chmod the part file; counters only grow -/
+structure Ext (m m' : M) : Prop where
+  tr : ∃ evs, m'.tr = m.tr ++ evs ∧ ∀ ev ∈ evs, modeEv ev = false
+  errs : m.errs ≤ m'.errs
+  envIno : m'.envIno = m.envIno
+
+theorem Ext.refl (m : M) : Ext m m := ⟨⟨[], by simp, by simp⟩, Nat.le_refl _, rfl⟩
+
+theorem Ext.trans {a b c : M} (h1 : Ext a b) (h2 : Ext b c) : Ext a c := by
+  obtain ⟨⟨e1, t1, m1⟩, r1, i1⟩ := h1
+  obtain ⟨⟨e2, t2, m2⟩, r2, i2⟩ := h2
+  refine ⟨⟨e1 ++ e2, by rw [t2, t1, List.append_assoc], ?_⟩, by omega, by rw [i2, i1]⟩
+  intro ev hev
+  rcases List.mem_append.1 hev with h | h
+  · exact m1 ev h
+  · exact m2 ev h
+
+theorem Ext.mode (um : Nat) {a b : M} (h : Ext a b) :
+    b.tr.foldl (modeAfter um) none = a.tr.foldl (modeAfter um) none := by
+  obtain ⟨⟨evs, t, hm⟩, _, _⟩ := h
+  rw [t, List.foldl_append]
+  clear t
+  generalize a.tr.foldl (modeAfter um) none = cur
+  induction evs generalizing cur with
+  | nil => rfl
+  | cons e evs ih =>
+    have he : modeAfter um cur e = cur := by
+      have := hm e (by simp)
+      cases e <;> simp [modeEv] at this <;> rfl
+    simp only [List.foldl_cons, he]
+    exact ih (fun ev hev => hm ev (by simp [hev])) cur
+
+theorem callPost_ext (fs0 : FS) (m : M) (s s' : St) (W : Bytes) (ev : Ev) (r : Option Errno × M)
+    (h : CallPost fs0 m s s' W ev r) (hm : modeEv ev = false) : Ext m r.2 := by
+  obtain ⟨hc, _, _, hei⟩ := h
+  rcases hc with ⟨_, _, he, ht⟩ | ⟨_, _, he, ht⟩
+  · exact ⟨⟨[ev], ht, by simp [hm]⟩, by omega, hei⟩
+  · exact ⟨⟨[], by simp [ht], by simp⟩, by omega, hei⟩
+
+theorem rmPart_ext (cfg : Cfg) (fs0 : FS) (plan : Plan) (m : M) (s : St) (W : Bytes)
+    (h : J fs0 m s W) (hph : s.phase = .part ∨ s.phase = .linked) : Ext m (rmPart cfg plan m) := by
+  obtain ⟨s', _, _, _, _, he, hi, ht⟩ := rmPart_spec cfg fs0 plan m s W h hph
+  refine ⟨?_, he, hi⟩
+  rcases ht with ht | ht
+  · exact ⟨[], by simp [ht], by simp⟩
+  · exact ⟨[.unlinkPart], ht, by simp [modeEv]⟩
+
+theorem callClose_ext (fs0 : FS) (plan : Plan) (m : M) (s s' : St) (W : Bytes)
+    (h : J fs0 m s W) (hs : s.step .close = some s') (hopen : s.isOpen = true) (hph : s.phase ≠ .init) :
+    Ext m (callClose plan m).2 := by
+  obtain ⟨_, a, b, c, _, e⟩ := callClose_spec fs0 plan m s s' W h hs hopen hph
+  refine ⟨⟨[.close], c, by simp [modeEv]⟩, ?_, e⟩
+  cases hr : (callClose plan m).1 with
+  | none => rw [a hr]; exact Nat.le_refl _
+  | some x => rw [b (by simp [hr])]; omega
+
+/-- the inner try/finally of `__exit__`: afterwards the part file is closed; when no error leaves
+    it everything written is flushed and synced -/
+theorem syncClose_spec (fs0 : FS) (plan : Plan) (m : M) (db us : Bool) (W : Bytes)
+    (h : J fs0 m ⟨.part, true, db, us⟩ W) :
+    ∃ u, J fs0 (syncClose plan m).2 ⟨.part, false, false, u⟩ W ∧
+      ((syncClose plan m).1 = none → u = false ∧ (syncClose plan m).2.errs = m.errs) ∧
+      ((syncClose plan m).1 ≠ none → m.errs < (syncClose plan m).2.errs) ∧
+      (syncClose plan m).2.cleanupFaulted = m.cleanupFaulted ∧ Ext m (syncClose plan m).2 := by
+  unfold syncClose
+  -- flush
+  have hs1 : (St.mk .part true db us).step .flush = some ⟨.part, true, false, us || db⟩ := by simp [St.step]
+  have c1 := J_call fs0 plan m _ _ W .flush h hs1
+  have x1 := callPost_ext fs0 m _ _ W .flush _ c1 rfl
+  obtain ⟨hc1, _, cf1, _⟩ := c1
+  rcases hc1 with ⟨hr1, hj1, he1, _⟩ | ⟨hr1, hj1, he1, _⟩
+  · -- flush succeeded: fsync
+    simp only [evWrites, List.append_nil] at hj1
+    simp only [hr1]
+    have hs2 : (St.mk .part true false (us || db)).step .fsync = some ⟨.part, true, false, false⟩ := by simp [St.step]
+    have c2 := J_call fs0 plan _ _ _ W .fsync hj1 hs2
+    have x2 := callPost_ext fs0 _ _ _ W .fsync _ c2 rfl
+    obtain ⟨hc2, _, cf2, _⟩ := c2
+    rcases hc2 with ⟨hr2, hj2, he2, _⟩ | ⟨hr2, hj2, he2, _⟩
+    · simp only [evWrites, List.append_nil] at hj2
+      have hs3 : (St.mk .part true false false).step .close = some ⟨.part, false, false, false⟩ := by simp [St.step]
+      obtain ⟨k1, k2, k3, _, k5, _⟩ := callClose_spec fs0 plan _ _ _ W hj2 hs3 rfl (by simp)
+      have x3 := callClose_ext fs0 plan _ _ _ W hj2 hs3 rfl (by simp)
+      refine ⟨false, k1, ?_, ?_, by rw [k5, cf2, cf1], x1.trans (x2.trans x3)⟩
+      · intro hn
+        have : (callClose plan (call plan (call plan m .flush).2 .fsync).2).1 = none := by
+          cases hh : (callClose plan (call plan (call plan m .flush).2 .fsync).2).1 <;> simp [hh] at hn ⊢
+        exact ⟨rfl, by rw [k2 this, he2, he1]⟩
+      · intro hn
+        have : (callClose plan (call plan (call plan m .flush).2 .fsync).2).1 ≠ none := by
+          intro hh; apply hn; simp [hh, hr2]
+        rw [k3 this, he2, he1]; omega
+    · have hs3 : (St.mk .part true false (us || db)).step .close = some ⟨.part, false, false, (us || db) || false⟩ := by simp [St.step]
+      obtain ⟨k1, k2, k3, _, k5, _⟩ := callClose_spec fs0 plan _ _ _ W hj2 hs3 rfl (by simp)
+      have x3 := callClose_ext fs0 plan _ _ _ W hj2 hs3 rfl (by simp)
+      refine ⟨_, k1, ?_, ?_, by rw [k5, cf2, cf1], x1.trans (x2.trans x3)⟩
+      · intro hn
+        exfalso
+        cases hh : (callClose plan (call plan (call plan m .flush).2 .fsync).2).1 <;>
+          cases hh2 : (call plan (call plan m .flush).2 .fsync).1 <;> simp [hh, hh2] at hn hr2
+      · intro _
+        have := x3.errs
+        omega
+  · -- flush failed: straight to close
+    have hr1' : ∃ e, (call plan m .flush).1 = some e := by
+      cases hh : (call plan m .flush).1 with
+      | none => exact absurd hh hr1
+      | some e => exact ⟨e, rfl⟩
+    obtain ⟨e, hr1'⟩ := hr1'
+    simp only [hr1']
+    have hs3 : (St.mk .part true db us).step .close = some ⟨.part, false, false, us || db⟩ := by simp [St.step]
+    obtain ⟨k1, k2, k3, _, k5, _⟩ := callClose_spec fs0 plan _ _ _ W hj1 hs3 rfl (by simp)
+    have x3 := callClose_ext fs0 plan _ _ _ W hj1 hs3 rfl (by simp)
+    refine ⟨_, k1, ?_, ?_, by rw [k5, cf1], x1.trans x3⟩
+    · intro hn
+      exfalso
+      cases hh : (callClose plan (call plan m .flush).2).1 <;> simp [hh] at hn
+    · intro _
+      have := x3.errs
+      omega
+
+/-- the common postcondition of `publish` and `finish` -/
+structure ExitPost (cfg : Cfg) (fs0 : FS) (m : M) (W : Bytes) (r : Outcome × M) (s' : St) : Prop where
+  j : J fs0 r.2 s' W
+  notinit : s'.phase ≠ .init
+  ok : r.1 = .ok → s'.phase = .done ∧ r.2.errs = m.errs ∧ r.2.cleanupFaulted = m.cleanupFaulted
+  failed : r.1 ≠ .ok → cfg.rmPartOnExc = true → r.2.cleanupFaulted = false → r.2.fs.dir.part = none
+  link : s'.published = true → cfg.overwrite = false → Ev.linkPartDest ∈ r.2.tr
+  ext : Ext m r.2
+
+theorem publish_spec (cfg : Cfg) (fs0 : FS) (plan : Plan) (m : M) (W : Bytes)
+    (h : J fs0 m ⟨.part, false, false, false⟩ W) :
+    ∃ s', ExitPost cfg fs0 m W (publish cfg plan m) s' ∧
+      (s'.published = true → (publish cfg plan m).1 = .ok ∨ cfg.overwrite = false) := by
+  unfold publish
+  cases how : cfg.overwrite with
+  | true =>
+    simp only [if_true]
+    have hs1 : (St.mk .part false false false).step .renamePartDest = some ⟨.done, false, false, false⟩ := by simp [St.step]
+    have c1 := J_call fs0 plan m _ _ W .renamePartDest h hs1
+    have x1 := callPost_ext fs0 m _ _ W .renamePartDest _ c1 rfl
+    obtain ⟨hc1, _, cf1, _⟩ := c1
+    cases hcall : call plan m .renamePartDest with
+    | mk r1 m1 =>
+      rw [hcall] at hc1 x1 cf1
+      rcases hc1 with ⟨hr1, hj1, he1, _⟩ | ⟨hr1, hj1, he1, _⟩
+      · simp only at hr1 hj1 he1 cf1 x1
+        subst hr1
+        simp only [evWrites, List.append_nil] at hj1
+        refine ⟨_, ⟨hj1, by simp, fun _ => ⟨rfl, he1, cf1⟩, fun hn => by simp at hn, fun _ hf => by rw [how] at hf; simp at hf, x1⟩, fun _ => Or.inl rfl⟩
+      · simp only at hr1 hj1 he1 cf1 x1
+        cases r1 with
+        | none => simp at hr1
+        | some e =>
+          simp only
+          obtain ⟨s', r1', r2, r3, r4, r5, _, _⟩ := rmPart_spec cfg fs0 plan m1 _ W hj1 (Or.inl rfl)
+          have x2 := rmPart_ext cfg fs0 plan m1 _ W hj1 (Or.inl rfl)
+          refine ⟨s', ⟨r1', r3, fun hn => by simp at hn, fun _ => r4, ?_, x1.trans x2⟩, ?_⟩
+          · intro hp; rw [r2] at hp; simp [St.published] at hp
+          · intro hp; rw [r2] at hp; simp [St.published] at hp
+  | false =>
+    simp only [Bool.false_eq_true, if_false]
+    have hs1 : (St.mk .part false false false).step .linkPartDest = some ⟨.linked, false, false, false⟩ := by simp [St.step]
+    have c1 := J_call fs0 plan m _ _ W .linkPartDest h hs1
+    have x1 := callPost_ext fs0 m _ _ W .linkPartDest _ c1 rfl
+    obtain ⟨hc1, _, cf1, _⟩ := c1
+    cases hcall : call plan m .linkPartDest with
+    | mk r1 m1 =>
+      rw [hcall] at hc1 x1 cf1
+      rcases hc1 with ⟨hr1, hj1, he1, ht1⟩ | ⟨hr1, hj1, he1, _⟩
+      · simp only at hr1 hj1 he1 cf1 x1 ht1
+        subst hr1
+        simp only [evWrites, List.append_nil] at hj1
+        simp only
+        have hs2 : (St.mk .linked false false false).step .unlinkPart = some ⟨.done, false, false, false⟩ := by simp [St.step]
+        have c2 := J_call fs0 plan m1 _ _ W .unlinkPart hj1 hs2
+        have x2 := callPost_ext fs0 m1 _ _ W .unlinkPart _ c2 rfl
+        obtain ⟨hc2, _, cf2, _⟩ := c2
+        cases hcall2 : call plan m1 .unlinkPart with
+        | mk r2 m2 =>
+          rw [hcall2] at hc2 x2 cf2
+          rcases hc2 with ⟨hr2, hj2, he2, ht2⟩ | ⟨hr2, hj2, he2, ht2⟩
+          · simp only at hr2 hj2 he2 cf2 x2 ht2
+            subst hr2
+            simp only [evWrites, List.append_nil] at hj2
+            refine ⟨_, ⟨hj2, by simp, fun _ => ⟨rfl, by rw [he2, he1], by rw [cf2, cf1]⟩, fun hn => by simp at hn, ?_, x1.trans x2⟩, fun _ => Or.inr (by simp [how])⟩
+            intro _ _; simp [ht2, ht1]
+          · simp only at hr2 hj2 he2 cf2 x2 ht2
+            cases r2 with
+            | none => simp at hr2
+            | some e =>
+              simp only
+              obtain ⟨s', q1, q2, q3, q4, q5, _, q7⟩ := rmPart_spec cfg fs0 plan m2 _ W hj2 (Or.inr rfl)
+              have x3 := rmPart_ext cfg fs0 plan m2 _ W hj2 (Or.inr rfl)
+              refine ⟨s', ⟨q1, q3, fun hn => by simp at hn, fun _ => q4, ?_, x1.trans (x2.trans x3)⟩, fun _ => Or.inr (by simp [how])⟩
+              intro _ _
+              rcases q7 with q7 | q7 <;> simp [q7, ht2, ht1]
+      · simp only at hr1 hj1 he1 cf1 x1
+        cases r1 with
+        | none => simp at hr1
+        | some e =>
+          simp only
+          obtain ⟨s', r1', r2, r3, r4, r5, _, _⟩ := rmPart_spec cfg fs0 plan m1 _ W hj1 (Or.inl rfl)
+          have x2 := rmPart_ext cfg fs0 plan m1 _ W hj1 (Or.inl rfl)
+          refine ⟨s', ⟨r1', r3, fun hn => by simp at hn, fun _ => r4, ?_, x1.trans x2⟩, fun _ => Or.inr (by simp [how])⟩
+          intro hp; rw [r2] at hp; simp [St.published] at hp
+
+/-- `__exit__` from the state in which the body leaves the part file (open, possibly dirty) -/
+theorem finish_spec (cfg : Cfg) (fs0 : FS) (plan : Plan) (m : M) (db us : Bool) (W : Bytes)
+    (blockExc : Option Outcome) (h : J fs0 m ⟨.part, true, db, us⟩ W) (hb : blockExc ≠ some .ok) :
+    ∃ s', ExitPost cfg fs0 m W (finish cfg plan m blockExc) s' ∧
+      (s'.published = true → blockExc = none ∧ ((finish cfg plan m blockExc).1 = .ok ∨ cfg.overwrite = false)) ∧
+      (∀ b, blockExc = some b → (finish cfg plan m blockExc).1 = b) := by
+  unfold finish
+  obtain ⟨u, hj, h1, h2, h3, x0⟩ := syncClose_spec fs0 plan m db us W h
+  cases hsc : syncClose plan m with
+  | mk r m3 =>
+    rw [hsc] at hj h1 h2 h3 x0
+    simp only at hj h1 h2 h3 x0
+    cases r with
+    | some e =>
+      simp only
+      obtain ⟨s', q1, q2, q3, q4, _, _, _⟩ := rmPart_spec cfg fs0 plan m3 _ W hj (Or.inl rfl)
+      have x1 := rmPart_ext cfg fs0 plan m3 _ W hj (Or.inl rfl)
+      have herr := h2 (by simp)
+      have hunp : s'.published = false := by rw [q2]; simp [St.published]
+      refine ⟨s', ⟨q1, q3, ?_, fun _ => q4, ?_, x0.trans x1⟩, ?_, ?_⟩
+      · intro hok
+        exfalso
+        cases blockExc with
+        | none => simp at hok
+        | some b => simp at hok; subst hok; exact hb rfl
+      · intro hp; rw [hunp] at hp; simp at hp
+      · intro hp; rw [hunp] at hp; simp at hp
+      · intro b hb; simp [hb]
+    | none =>
+      obtain ⟨hu, he⟩ := h1 rfl
+      subst hu
+      simp only
+      cases blockExc with
+      | some b =>
+        simp only
+        obtain ⟨s', q1, q2, q3, q4, _, _, _⟩ := rmPart_spec cfg fs0 plan m3 _ W hj (Or.inl rfl)
+        have x1 := rmPart_ext cfg fs0 plan m3 _ W hj (Or.inl rfl)
+        have hunp : s'.published = false := by rw [q2]; simp [St.published]
+        refine ⟨s', ⟨q1, q3, ?_, fun _ => q4, ?_, x0.trans x1⟩, ?_, ?_⟩
+        · intro hok; simp at hok; subst hok; exact absurd rfl hb
+        · intro hp; rw [hunp] at hp; simp at hp
+        · intro hp; rw [hunp] at hp; simp at hp
+        · intro b' hb; simp at hb; simp [hb]
+      | none =>
+        simp only
+        obtain ⟨s', ⟨p1, p2, p3, p4, p5, p6⟩, p7⟩ := publish_spec cfg fs0 plan m3 W hj
+        refine ⟨s', ⟨p1, p2, ?_, ?_, p5, x0.trans p6⟩, fun hp => ⟨trivial, p7 hp⟩, by simp⟩
+        · intro hok; obtain ⟨a, b, c⟩ := p3 hok; exact ⟨a, by rw [b, he], by rw [c, h3]⟩
+        · exact p4
+
+/-- the body's writes keep the part file open in the `part` phase; without a failure everything
+    written is accounted for in `W` -/
+theorem runWrites_spec (fs0 : FS) (plan : Plan) : ∀ (ws : List (Bytes × Nat)) (m : M) (db us : Bool) (W : Bytes),
+    J fs0 m ⟨.part, true, db, us⟩ W →
+    ∃ db' us' W', J fs0 (runWrites plan m ws).2 ⟨.part, true, db', us'⟩ W' ∧
+      ((runWrites plan m ws).1 = none → W' = W ++ (ws.map (·.1)).flatten ∧ (runWrites plan m ws).2.errs = m.errs) ∧
+      ((runWrites plan m ws).1 ≠ none → m.errs < (runWrites plan m ws).2.errs) ∧
+      (runWrites plan m ws).2.cleanupFaulted = m.cleanupFaulted ∧ Ext m (runWrites plan m ws).2
+  | [], m, db, us, W, h => ⟨db, us, W, by simpa [runWrites] using h, by simp [runWrites], by simp [runWrites],
+      by simp [runWrites], by simpa [runWrites] using Ext.refl m⟩
+  | w :: ws, m, db, us, W, h => by
+    simp only [runWrites]
+    have hs1 : (St.mk .part true db us).step (.write w.1 w.2) = some ⟨.part, true, true, true⟩ := by simp [St.step]
+    have c1 := J_call fs0 plan m _ _ W (.write w.1 w.2) h hs1
+    have x1 := callPost_ext fs0 m _ _ W (.write w.1 w.2) _ c1 rfl
+    obtain ⟨hc1, _, cf1, _⟩ := c1
+    cases hcall : call plan m (.write w.1 w.2) with
+    | mk r1 m1 =>
+      rw [hcall] at hc1 x1 cf1
+      rcases hc1 with ⟨hr1, hj1, he1, _⟩ | ⟨hr1, hj1, he1, _⟩
+      · simp only at hr1 hj1 he1 cf1 x1
+        subst hr1
+        simp only [evWrites] at hj1
+        dsimp only
+        obtain ⟨db', us', W', k1, k2, k3, k4, k5⟩ := runWrites_spec fs0 plan ws m1 true true _ hj1
+        refine ⟨db', us', W', k1, ?_, ?_, by rw [k4, cf1], x1.trans k5⟩
+        · intro hn; obtain ⟨a, b⟩ := k2 hn; exact ⟨by simp [a, List.append_assoc], by rw [b, he1]⟩
+        · intro hn; have := k3 hn; omega
+      · simp only at hr1 hj1 he1 cf1 x1
+        cases r1 with
+        | none => simp at hr1
+        | some e =>
+          dsimp only
+          exact ⟨db, us, W, hj1, by simp, fun _ => by omega, cf1, x1⟩
+
+/-- postcondition of a failed `setup()`: nothing published; either no part file was ever created
+    (automaton still in `init`) or the cleanup ran -/
+structure SetupFail (cfg : Cfg) (fs0 : FS) (m m' : M) : Prop where
+  ex : ∃ s', J fs0 m' s' [] ∧ s'.published = false ∧
+        ((s'.phase = .init ∧ m'.tr = m.tr) ∨
+         (s'.phase ≠ .init ∧ (cfg.rmPartOnExc = true → m'.cleanupFaulted = false → m'.fs.dir.part = none)))
+  errs : m.errs < m'.errs
+  envIno : m'.envIno = m.envIno
+
+theorem openPartFile_spec (cfg : Cfg) (fs0 : FS) (plan : Plan) (m : M) (perms : Nat) (doChmod : Bool)
+    (h : J fs0 m St.init []) (hcf : m.cleanupFaulted = false) :
+    ((openPartFile cfg plan m perms doChmod).1 = none →
+      J fs0 (openPartFile cfg plan m perms doChmod).2 ⟨.part, true, false, false⟩ [] ∧
+      (openPartFile cfg plan m perms doChmod).2.errs = m.errs ∧
+      (openPartFile cfg plan m perms doChmod).2.cleanupFaulted = false ∧
+      (openPartFile cfg plan m perms doChmod).2.envIno = m.envIno ∧
+      (openPartFile cfg plan m perms doChmod).2.tr =
+        m.tr ++ ([Ev.openPart true true perms, Ev.noop] ++ if doChmod then [Ev.chmodPart perms] else [])) ∧
+    ((openPartFile cfg plan m perms doChmod).1 ≠ none →
+      SetupFail cfg fs0 m (openPartFile cfg plan m perms doChmod).2) := by
+  unfold openPartFile
+  have hs1 : St.init.step (.openPart true true perms) = some ⟨.part, true, false, false⟩ := by simp [St.step, St.init]
+  obtain ⟨hc1, _, cf1, ei1⟩ := J_call fs0 plan m _ _ [] (.openPart true true perms) h hs1
+  cases hcall : call plan m (.openPart true true perms) with
+  | mk r1 m1 =>
+    rw [hcall] at hc1 cf1 ei1
+    rcases hc1 with ⟨hr1, hj1, he1, ht1⟩ | ⟨hr1, hj1, he1, ht1⟩
+    · simp only at hr1 hj1 he1 cf1 ht1 ei1
+      subst hr1
+      simp only [evWrites, List.append_nil] at hj1
+      dsimp only
+      -- fdopen
+      have hs2 : (St.mk .part true false false).step .noop = some ⟨.part, true, false, false⟩ := by simp [St.step]
+      obtain ⟨hc2, _, cf2, ei2⟩ := J_call fs0 plan m1 _ _ [] .noop hj1 hs2
+      cases hcall2 : call plan m1 .noop with
+      | mk r2 m2 =>
+        rw [hcall2] at hc2 cf2 ei2
+        rcases hc2 with ⟨hr2, hj2, he2, ht2⟩ | ⟨hr2, hj2, he2, ht2⟩
+        · simp only at hr2 hj2 he2 cf2 ht2 ei2
+          subst hr2
+          simp only [evWrites, List.append_nil] at hj2
+          dsimp only
+          cases doChmod with
+          | false =>
+            simp only [Bool.false_eq_true, if_false]
+            refine ⟨fun _ => ⟨hj2, by rw [he2, he1], by rw [cf2, cf1, hcf], by rw [ei2, ei1], by simp [ht2, ht1]⟩, fun hn => by simp at hn⟩
+          | true =>
+            simp only [if_true]
+            have hs3 : (St.mk .part true false false).step (.chmodPart perms) = some ⟨.part, true, false, false⟩ := by simp [St.step]
+            obtain ⟨hc3, _, cf3, ei3⟩ := J_call fs0 plan m2 _ _ [] (.chmodPart perms) hj2 hs3
+            cases hcall3 : call plan m2 (.chmodPart perms) with
+            | mk r3 m3 =>
+              rw [hcall3] at hc3 cf3 ei3
+              rcases hc3 with ⟨hr3, hj3, he3, ht3⟩ | ⟨hr3, hj3, he3, ht3⟩
+              · simp only at hr3 hj3 he3 cf3 ht3 ei3
+                subst hr3
+                simp only [evWrites, List.append_nil] at hj3
+                dsimp only
+                refine ⟨fun _ => ⟨hj3, by rw [he3, he2, he1], by rw [cf3, cf2, cf1, hcf], by rw [ei3, ei2, ei1], by simp [ht3, ht2, ht1]⟩, fun hn => by simp at hn⟩
+              · simp only at hr3 hj3 he3 cf3 ht3 ei3
+                cases r3 with
+                | none => simp at hr3
+                | some e =>
+                  dsimp only
+                  -- except: part_file.close(); finally: _rm_part_on_exc(); raise
+                  have hs4 : (St.mk .part true false false).step .close = some ⟨.part, false, false, false⟩ := by simp [St.step]
+                  obtain ⟨k1, _, _, _, k5, k6⟩ := callClose_spec fs0 plan m3 _ _ [] hj3 hs4 rfl (by simp)
+                  have x4 := callClose_ext fs0 plan m3 _ _ [] hj3 hs4 rfl (by simp)
+                  obtain ⟨s', q1, q2, q3, q4, q5, q6, _⟩ := rmPart_spec cfg fs0 plan (callClose plan m3).2 _ [] k1 (Or.inl rfl)
+                  refine ⟨fun hn => by simp at hn, fun _ => ⟨⟨s', q1, by rw [q2]; simp [St.published], Or.inr ⟨q3, q4⟩⟩, ?_, by rw [q6, k6, ei3, ei2, ei1]⟩⟩
+                  have := x4.errs
+                  omega
+        · simp only at hr2 hj2 he2 cf2 ht2 ei2
+          cases r2 with
+          | none => simp at hr2
+          | some e =>
+            dsimp only
+            -- except: os.close(fd); finally: _rm_part_on_exc(); raise
+            have hs3 : (St.mk .part true false false).step .closeFd = some ⟨.part, false, false, false⟩ := by simp [St.step]
+            obtain ⟨hc3, _, cf3, ei3⟩ := J_call fs0 plan m2 _ _ [] .closeFd hj2 hs3
+            cases hcall3 : call plan m2 .closeFd with
+            | mk r3 m3 =>
+              rw [hcall3] at hc3 cf3 ei3
+              have hj3 : ∃ s3 : St, J fs0 m3 s3 [] ∧ s3.phase = .part ∧ m2.errs ≤ m3.errs := by
+                rcases hc3 with ⟨_, hj3, he3, _⟩ | ⟨_, hj3, he3, _⟩
+                · simp only [evWrites, List.append_nil] at hj3
+                  exact ⟨_, hj3, rfl, by simp only at he3; omega⟩
+                · exact ⟨_, hj3, rfl, by simp only at he3; omega⟩
+              obtain ⟨s3, hj3, hp3, he3⟩ := hj3
+              dsimp only
+              obtain ⟨s', q1, q2, q3, q4, q5, q6, _⟩ := rmPart_spec cfg fs0 plan m3 s3 [] hj3 (Or.inl hp3)
+              refine ⟨fun hn => by simp at hn, fun _ => ⟨⟨s', q1, ?_, Or.inr ⟨q3, q4⟩⟩, by simp only at ei3; omega, by rw [q6]; simp only at ei3; rw [ei3, ei2, ei1]⟩⟩
+              rw [q2]; obtain ⟨ph, _, _, _⟩ := s3; simp at hp3; subst hp3; simp [St.published]
+    · simp only at hr1 hj1 he1 cf1 ht1 ei1
+      cases r1 with
+      | none => simp at hr1
+      | some e =>
+        dsimp only
+        exact ⟨fun hn => by simp at hn, fun _ => ⟨⟨St.init, hj1, by decide, Or.inl ⟨rfl, ht1⟩⟩, by omega, ei1⟩⟩
+
+theorem J_callStat (fs0 : FS) (plan : Plan) (m : M) (s : St) (W : Bytes) (h : J fs0 m s W) :
+    J fs0 (callStat plan m).2 s W ∧ (callStat plan m).2.tr = m.tr ∧
+    (callStat plan m).2.cleanupFaulted = m.cleanupFaulted ∧ (callStat plan m).2.envIno = m.envIno ∧
+    ((∀ v, (callStat plan m).1 = .ok v → (callStat plan m).2.errs = m.errs) ∧
+     (∀ e, (callStat plan m).1 = .error e → (callStat plan m).2.errs = m.errs + 1)) ∧
+    ((∀ k, plan k ≠ .appear) → (∀ k, plan k ≠ .fail ENOENT) →
+      ∀ v, (callStat plan m).1 = .ok v → v = m.fs.destMode) := by
+  unfold callStat
+  cases hp : plan m.n with
+  | fail e =>
+    by_cases he : e = ENOENT
+    · simp only [he, if_true]
+      refine ⟨J_congr _ _ _ _ _ h rfl rfl rfl rfl, trivial, trivial, trivial, ⟨by simp, by simp⟩, ?_⟩
+      intro _ h2; exact absurd (he ▸ hp) (h2 m.n)
+    · simp only [he, if_false]
+      refine ⟨J_congr _ _ _ _ _ h rfl rfl rfl rfl, trivial, trivial, trivial, ⟨by simp, by simp⟩, by simp⟩
+  | pass =>
+    exact ⟨J_congr _ _ _ _ _ h rfl rfl rfl rfl, rfl, rfl, rfl, ⟨by simp, by simp⟩, by simp⟩
+  | appear =>
+    obtain ⟨e1, e2, e3, e4, e5⟩ := env_fields m .appear
+    refine ⟨J_congr _ _ _ _ _ (J_env fs0 m s W .appear h) rfl rfl rfl rfl, e2, e4, e5, ⟨by simp [e3], by simp⟩, ?_⟩
+    intro h1; exact absurd hp (h1 m.n)
+
+theorem call_envDone (plan : Plan) (m : M) (ev : Ev) (hp : ∀ k, plan k ≠ .appear) :
+    (call plan m ev).2.envDone = m.envDone := by
+  unfold call
+  cases h : plan m.n with
+  | fail e => rfl
+  | pass => simp only [exe]; split <;> rfl
+  | appear => exact absurd h (hp m.n)
+
+/-- what `setup()` leaves behind when it succeeds -/
+structure SetupOk (cfg : Cfg) (fs0 : FS) (e : Nat) (plan : Plan) (m' : M) : Prop where
+  j : J fs0 m' ⟨.part, true, false, false⟩ []
+  errs : m'.errs = 0
+  cf : m'.cleanupFaulted = false
+  envIno : m'.envIno = e
+  tr : ∃ p c, m'.tr = (if cfg.overwritePart && fs0.dir.part.isSome then [Ev.unlinkPart] else []) ++
+          ([Ev.openPart true true p, Ev.noop] ++ if c then [Ev.chmodPart p] else []) ∧
+        ((∀ k, plan k ≠ .appear) → (∀ k, plan k ≠ .fail ENOENT) → (p, c) = choosePerms cfg fs0)
+  norefuse : fs0.dir.dest = none ∨ cfg.overwrite = true
+
+/-- postcondition of a failed `setup()` -/
+structure SetupFail0 (cfg : Cfg) (fs0 : FS) (e : Nat) (m' : M) : Prop where
+  ex : ∃ s', J fs0 m' s' [] ∧ s'.published = false ∧
+        ((s'.phase = .init ∧ (Ev.unlinkPart ∈ m'.tr → cfg.overwritePart = true)) ∨
+         (s'.phase ≠ .init ∧ (cfg.rmPartOnExc = true → m'.cleanupFaulted = false → m'.fs.dir.part = none)))
+  errs : 0 < m'.errs
+  envIno : m'.envIno = e
+
+theorem setup_spec (cfg : Cfg) (fs0 : FS) (e : Nat) (plan : Plan) :
+    ((setup cfg plan (M.start fs0 e)).1 = none → SetupOk cfg fs0 e plan (setup cfg plan (M.start fs0 e)).2) ∧
+    ((setup cfg plan (M.start fs0 e)).1 ≠ none →
+      SetupFail0 cfg fs0 e (setup cfg plan (M.start fs0 e)).2) := by
+  have h0 := J_start fs0 e
+  unfold setup
+  by_cases hrefuse : ((M.start fs0 e).fs.dir.dest.isSome && !cfg.overwrite) = true
+  · simp only [hrefuse, if_true]
+    refine ⟨fun hn => by simp at hn, fun _ => ⟨⟨St.init, J_congr _ _ _ _ _ h0 rfl rfl rfl rfl, by decide, Or.inl ⟨rfl, by simp [M.start]⟩⟩, by simp, rfl⟩⟩
+  · simp only [hrefuse, Bool.false_eq_true, if_false]
+    have hnr : fs0.dir.dest = none ∨ cfg.overwrite = true := by
+      simp [M.start] at hrefuse
+      cases hd : fs0.dir.dest with
+      | none => exact Or.inl rfl
+      | some i => right; cases ho : cfg.overwrite <;> simp_all
+    -- the optional removal of a stale part file
+    have stale : ∃ (r1 : Option Errno) (m1 : M),
+        (if cfg.overwritePart && (M.start fs0 e).fs.dir.part.isSome then call plan (M.start fs0 e) .unlinkPart
+          else (none, M.start fs0 e)) = (r1, m1) ∧
+        J fs0 m1 St.init [] ∧ m1.cleanupFaulted = false ∧ m1.envIno = e ∧
+        (r1 = none → m1.errs = 0 ∧ m1.tr = (if cfg.overwritePart && fs0.dir.part.isSome then [Ev.unlinkPart] else []) ∧
+          ((∀ k, plan k ≠ .appear) → m1.envDone = false)) ∧
+        (r1 ≠ none → m1.errs = 1 ∧ m1.tr = []) := by
+      by_cases hc : (cfg.overwritePart && (M.start fs0 e).fs.dir.part.isSome) = true
+      · simp only [hc, if_true]
+        have hc' : (cfg.overwritePart && fs0.dir.part.isSome) = true := hc
+        have hs1 : St.init.step .unlinkPart = some St.init := by simp [St.step, St.init]
+        obtain ⟨hc1, _, cf1, ei1⟩ := J_call fs0 plan (M.start fs0 e) _ _ [] .unlinkPart h0 hs1
+        have hed := call_envDone plan (M.start fs0 e) .unlinkPart
+        cases hcall : call plan (M.start fs0 e) .unlinkPart with
+        | mk r1 m1 =>
+          rw [hcall] at hc1 cf1 ei1 hed
+          refine ⟨r1, m1, rfl, ?_⟩
+          rcases hc1 with ⟨hr1, hj1, he1, ht1⟩ | ⟨hr1, hj1, he1, ht1⟩
+          · simp only [evWrites, List.append_nil] at hj1
+            exact ⟨hj1, cf1, ei1, fun _ => ⟨he1, by simpa [hc', M.start] using ht1, fun hp => by simpa [M.start] using hed hp⟩,
+              fun hn => absurd hr1 hn⟩
+          · exact ⟨hj1, cf1, ei1, fun hn => absurd hn hr1, fun _ => ⟨he1, ht1⟩⟩
+      · simp only [hc, if_false]
+        have hc' : ¬ (cfg.overwritePart && fs0.dir.part.isSome) = true := hc
+        exact ⟨none, M.start fs0 e, rfl, h0, rfl, rfl, fun _ => ⟨rfl, by simp [hc', M.start], fun _ => rfl⟩, fun hn => by simp at hn⟩
+    obtain ⟨r1, m1, hst1, hj1, cf1, ei1, hok1, hbad1⟩ := stale
+    rw [hst1]
+    cases r1 with
+    | some err =>
+      dsimp only
+      obtain ⟨b1, b2⟩ := hbad1 (by simp)
+      exact ⟨fun hn => by simp at hn, fun _ => ⟨⟨St.init, hj1, by decide, Or.inl ⟨rfl, by simp [b2]⟩⟩, by simp [b1], ei1⟩⟩
+    | none =>
+      dsimp only
+      obtain ⟨a1, a2, a3⟩ := hok1 rfl
+      -- common continuation through _open_part_file
+      have cont : ∀ (m2 : M) (p : Nat) (c : Bool), J fs0 m2 St.init [] → m2.cleanupFaulted = false → m2.envIno = e →
+          m2.errs = 0 → m2.tr = m1.tr →
+          ((∀ k, plan k ≠ .appear) → (∀ k, plan k ≠ .fail ENOENT) → (p, c) = choosePerms cfg fs0) →
+          ((openPartFile cfg plan m2 p c).1 = none → SetupOk cfg fs0 e plan (openPartFile cfg plan m2 p c).2) ∧
+          ((openPartFile cfg plan m2 p c).1 ≠ none → SetupFail0 cfg fs0 e (openPartFile cfg plan m2 p c).2) := by
+        intro m2 p c hj2 cf2 ei2 he2 ht2 hpc
+        obtain ⟨o1, o2⟩ := openPartFile_spec cfg fs0 plan m2 p c hj2 cf2
+        refine ⟨fun hn => ?_, fun hn => ?_⟩
+        · obtain ⟨k1, k2, k3, k4, k5⟩ := o1 hn
+          exact ⟨k1, by rw [k2, he2], k3, by rw [k4, ei2], ⟨p, c, by rw [k5, ht2, a2], hpc⟩, hnr⟩
+        · obtain ⟨⟨s', q1, q2, q3⟩, q4, q5⟩ := o2 hn
+          refine ⟨⟨s', q1, q2, ?_⟩, by omega, by rw [q5, ei2]⟩
+          rcases q3 with ⟨q3, q3'⟩ | q3
+          · left; refine ⟨q3, ?_⟩
+            rw [q3', ht2, a2]
+            split <;> simp_all
+          · exact Or.inr q3
+      cases hperm : cfg.perms with
+      | some p =>
+        dsimp only
+        refine cont m1 p true hj1 cf1 ei1 a1 rfl ?_
+        intro _ _; simp [choosePerms, hperm]
+      | none =>
+        dsimp only
+        obtain ⟨sj, st, scf, sei, ⟨serr_ok, serr_bad⟩, sval⟩ := J_callStat fs0 plan m1 St.init [] hj1
+        cases hstat : callStat plan m1 with
+        | mk rs m2 =>
+          rw [hstat] at sj st scf sei serr_ok serr_bad sval
+          simp only at sj st scf sei serr_ok serr_bad sval
+          have hdm : (∀ k, plan k ≠ .appear) → m1.fs.destMode = fs0.destMode := by
+            intro hp
+            have hed := a3 hp
+            have hd := hj1.dest (by decide)
+            simp only [hed] at hd
+            have hi := hj1.inv
+            simp only [GInv, St.init] at hi
+            simp [FS.destMode, FS.inode?, hd, hi.1]
+          cases rs with
+          | error err =>
+            dsimp only
+            exact ⟨fun hn => by simp at hn, fun _ => ⟨⟨St.init, sj, by decide, Or.inl ⟨rfl, by
+              rw [st, a2]; split <;> simp_all⟩⟩, by rw [serr_bad err rfl, a1]; simp, by rw [sei, ei1]⟩⟩
+          | ok v =>
+            cases v with
+            | some mode =>
+              dsimp only
+              refine cont m2 mode true sj (by rw [scf, cf1]) (by rw [sei, ei1]) (by rw [serr_ok _ rfl, a1]) st ?_
+              intro hp1 hp2
+              have := sval hp1 hp2 _ rfl
+              rw [hdm hp1] at this
+              simp [choosePerms, hperm, ← this]
+            | none =>
+              dsimp only
+              refine cont m2 RW_PERMS false sj (by rw [scf, cf1]) (by rw [sei, ei1]) (by rw [serr_ok _ rfl, a1]) st ?_
+              intro hp1 hp2
+              have := sval hp1 hp2 _ rfl
+              rw [hdm hp1] at this
+              simp [choosePerms, hperm, ← this]
+
+
+/-- the mode given to the part file by a successful `setup()` -/
+def setupMode (um p : Nat) (c : Bool) : Nat := if c then p else umaskOf um p
+
+theorem foldl_nomode (um : Nat) (evs : List Ev) (cur : Option Nat) (hm : ∀ ev ∈ evs, modeEv ev = false) :
+    evs.foldl (modeAfter um) cur = cur := by
+  induction evs generalizing cur with
+  | nil => rfl
+  | cons e evs ih =>
+    have he : modeAfter um cur e = cur := by
+      have := hm e (by simp)
+      cases e <;> simp [modeEv] at this <;> rfl
+    simp only [List.foldl_cons, he]
+    exact ih cur (fun ev hev => hm ev (by simp [hev]))
+
+theorem setup_mode (um : Nat) (pre : List Ev) (p : Nat) (c : Bool) (hpre : ∀ ev ∈ pre, modeEv ev = false) :
+    (pre ++ ([Ev.openPart true true p, Ev.noop] ++ if c then [Ev.chmodPart p] else [])).foldl (modeAfter um) none
+      = some (setupMode um p c) := by
+  rw [List.foldl_append, foldl_nomode um pre none hpre]
+  cases c <;> simp [modeAfter, setupMode]
+
+/-- everything the property theorems need to know about the result of a save -/
+structure Res (cfg : Cfg) (fs0 : FS) (e : Nat) (body : Body) (plan : Plan) (out : Outcome) (m : M) (s : St) (W : Bytes) : Prop where
+  j : J fs0 m s W
+  envIno : m.envIno = e
+  ok : out = .ok → s.phase = .done ∧ m.errs = 0 ∧ body.raises = false
+  pub : s.published = true → body.raises = false ∧ W = newContent body ∧ (out = .ok ∨ cfg.overwrite = false) ∧
+          (cfg.overwrite = false → Ev.linkPartDest ∈ m.tr) ∧
+          ∃ p c, m.tr.foldl (modeAfter fs0.umask) none = some (setupMode fs0.umask p c) ∧
+            ((∀ k, plan k ≠ .appear) → (∀ k, plan k ≠ .fail ENOENT) → (p, c) = choosePerms cfg fs0)
+  failed : out ≠ .ok →
+    (s.phase = .init ∧ (Ev.unlinkPart ∈ m.tr → cfg.overwritePart = true)) ∨
+    (s.phase ≠ .init ∧ (cfg.rmPartOnExc = true → m.cleanupFaulted = false → m.fs.dir.part = none))
+  refused : fs0.dir.dest ≠ none → cfg.overwrite = false → out = .osErr EEXIST ∧ m.fs = fs0 ∧ m.tr = []
+
+theorem runSave_spec (cfg : Cfg) (fs0 : FS) (e : Nat) (body : Body) (plan : Plan) :
+    ∃ s W, Res cfg fs0 e body plan (runSave cfg body plan fs0 e).1 (runSave cfg body plan fs0 e).2 s W := by
+  unfold runSave
+  obtain ⟨sok, sfail⟩ := setup_spec cfg fs0 e plan
+  have href : fs0.dir.dest ≠ none → cfg.overwrite = false →
+      setup cfg plan (M.start fs0 e) = (some EEXIST, { M.start fs0 e with errs := (M.start fs0 e).errs + 1 }) := by
+    intro hd ho
+    unfold setup
+    have : ((M.start fs0 e).fs.dir.dest.isSome && !cfg.overwrite) = true := by
+      cases h : fs0.dir.dest with
+      | none => exact absurd h hd
+      | some i => simp [M.start, h, ho]
+    simp only [this, if_true]
+  cases hsetup : setup cfg plan (M.start fs0 e) with
+  | mk r1 m1 =>
+    rw [hsetup] at sok sfail
+    simp only at sok sfail
+    cases r1 with
+    | some err =>
+      dsimp only
+      obtain ⟨⟨s', q1, q2, q3⟩, q4, q5⟩ := sfail (by simp)
+      refine ⟨s', [], ⟨q1, q5, fun h => by simp at h, fun hp => by rw [q2] at hp; simp at hp, fun _ => q3, ?_⟩⟩
+      intro hd ho
+      have := href hd ho
+      rw [hsetup] at this
+      simp only [Prod.mk.injEq, Option.some.injEq] at this
+      obtain ⟨rfl, rfl⟩ := this
+      exact ⟨rfl, rfl, rfl⟩
+    | none =>
+      dsimp only
+      obtain ⟨k1, k2, k3, k4, ⟨p, c, k5, k6⟩, k7⟩ := sok rfl
+      obtain ⟨db', us', W', w1, w2, w3, w4, w5⟩ := runWrites_spec fs0 plan body.writes m1 false false [] k1
+      have hb : blockOutcome body (runWrites plan m1 body.writes).1 ≠ some .ok := by
+        unfold blockOutcome
+        cases (runWrites plan m1 body.writes).1 <;> simp
+      obtain ⟨s', ⟨f1, f2, f3, f4, f5, f6⟩, f7, f8⟩ := finish_spec cfg fs0 plan (runWrites plan m1 body.writes).2 db' us' W'
+        (blockOutcome body (runWrites plan m1 body.writes).1) w1 hb
+      -- a published save means the block ended normally: every write went through
+      have hblock : blockOutcome body (runWrites plan m1 body.writes).1 = none →
+          (runWrites plan m1 body.writes).1 = none ∧ body.raises = false := by
+        unfold blockOutcome
+        cases (runWrites plan m1 body.writes).1 <;> simp
+      refine ⟨s', W', ⟨f1, by rw [f6.envIno, w5.envIno, k4], ?_, ?_, ?_, ?_⟩⟩
+      · intro hok
+        obtain ⟨a, b, _⟩ := f3 hok
+        have hpub : s'.published = true := by simp [St.published, a]
+        obtain ⟨hbn, _⟩ := f7 hpub
+        obtain ⟨hw, hr⟩ := hblock hbn
+        exact ⟨a, by rw [b, (w2 hw).2, k2], hr⟩
+      · intro hpub
+        obtain ⟨hbn, hok⟩ := f7 hpub
+        obtain ⟨hw, hr⟩ := hblock hbn
+        refine ⟨hr, by simpa [newContent] using (w2 hw).1, hok, f5 hpub, p, c, ?_, k6⟩
+        rw [Ext.mode fs0.umask f6, Ext.mode fs0.umask w5, k5]
+        apply setup_mode
+        intro ev hev
+        split at hev <;> simp at hev
+        subst hev; rfl
+      · intro hn
+        exact Or.inr ⟨f2, f4 hn⟩
+      · intro hd ho
+        have := href hd ho
+        rw [hsetup] at this
+        simp at this
+
+
+/-! ### progress without faults: every call of a save with nothing in its way succeeds -/
+
+theorem call_pass_ok (plan : Plan) (m : M) (ev : Ev) (hp : plan m.n = .pass)
+    (hf : ∃ fs', m.fs.step ev = .ok fs') : (call plan m ev).1 = none := by
+  obtain ⟨fs', hf⟩ := hf
+  simp [call, hp, exe, hf]
+
+theorem step_ok_open (fs0 : FS) (m : M) (s : St) (W : Bytes) (h : J fs0 m s W) (ev : Ev)
+    (ho : s.isOpen = true) (hph : s.phase ≠ .init)
+    (hev : ev = .flush ∨ ev = .fsync ∨ ev = .close ∨ ev = .closeFd ∨ ∃ d k, ev = .write d k) :
+    ∃ fs', m.fs.step ev = .ok fs' := by
+  obtain ⟨x, _, h5, _⟩ := ginv_shape _ _ s m.fs W h.inv hph
+  obtain ⟨buf, h7⟩ := h5 ho
+  rcases hev with rfl | rfl | rfl | rfl | ⟨d, k, rfl⟩ <;>
+    simp [FS.step, FS.flush, FS.fsync, FS.close, FS.closeFd, FS.write, h7]
+
+theorem step_ok_part (fs0 : FS) (m : M) (s : St) (W : Bytes) (h : J fs0 m s W) (ev : Ev)
+    (hph : s.phase = .part ∨ s.phase = .linked)
+    (hev : ev = .unlinkPart ∨ ev = .renamePartDest ∨ (∃ p, ev = .chmodPart p) ∨ (ev = .linkPartDest ∧ m.fs.dir.dest = none)) :
+    ∃ fs', m.fs.step ev = .ok fs' := by
+  have hp := ginv_part_some _ _ s m.fs W h.inv hph
+  rcases hev with rfl | rfl | ⟨p, rfl⟩ | ⟨rfl, hd⟩ <;>
+    simp [FS.step, FS.unlinkPart, FS.renamePartDest, FS.chmodPart, FS.linkPartDest, hp, *]
+
+theorem runWrites_ok (fs0 : FS) (plan : Plan) (hp : ∀ k, plan k = .pass) :
+    ∀ (ws : List (Bytes × Nat)) (m : M) (db us : Bool) (W : Bytes),
+    J fs0 m ⟨.part, true, db, us⟩ W → (runWrites plan m ws).1 = none
+  | [], m, db, us, W, h => rfl
+  | w :: ws, m, db, us, W, h => by
+    simp only [runWrites]
+    have hok := call_pass_ok plan m (.write w.1 w.2) (hp _)
+      (step_ok_open fs0 m _ W h _ rfl (by simp) (Or.inr (Or.inr (Or.inr (Or.inr ⟨_, _, rfl⟩)))))
+    have hs1 : (St.mk .part true db us).step (.write w.1 w.2) = some ⟨.part, true, true, true⟩ := by simp [St.step]
+    obtain ⟨hc1, _⟩ := J_call fs0 plan m _ _ W (.write w.1 w.2) h hs1
+    cases hcall : call plan m (.write w.1 w.2) with
+    | mk r1 m1 =>
+      rw [hcall] at hc1 hok
+      simp only at hok; subst hok
+      rcases hc1 with ⟨_, hj1, _⟩ | ⟨hr, _⟩
+      · exact runWrites_ok fs0 plan hp ws m1 true true _ hj1
+      · simp at hr
+
+theorem exe_close_ok (m : M) (hf : ∃ fs', m.fs.step .close = .ok fs') : (exe m .close).1 = none := by
+  obtain ⟨fs', hf⟩ := hf; simp [exe, hf]
+
+theorem syncClose_ok (fs0 : FS) (plan : Plan) (hp : ∀ k, plan k = .pass) (m : M) (db us : Bool) (W : Bytes)
+    (h : J fs0 m ⟨.part, true, db, us⟩ W) : (syncClose plan m).1 = none := by
+  unfold syncClose
+  have hs1 : (St.mk .part true db us).step .flush = some ⟨.part, true, false, us || db⟩ := by simp [St.step]
+  have ok1 := call_pass_ok plan m .flush (hp _) (step_ok_open fs0 m _ W h _ rfl (by simp) (Or.inl rfl))
+  obtain ⟨hc1, _⟩ := J_call fs0 plan m _ _ W .flush h hs1
+  rcases hc1 with ⟨_, hj1, _⟩ | ⟨hr, _⟩
+  · simp only [evWrites, List.append_nil] at hj1
+    simp only [ok1]
+    have hs2 : (St.mk .part true false (us || db)).step .fsync = some ⟨.part, true, false, false⟩ := by simp [St.step]
+    have ok2 := call_pass_ok plan _ .fsync (hp _) (step_ok_open fs0 _ _ W hj1 _ rfl (by simp) (Or.inr (Or.inl rfl)))
+    obtain ⟨hc2, _⟩ := J_call fs0 plan _ _ _ W .fsync hj1 hs2
+    rcases hc2 with ⟨_, hj2, _⟩ | ⟨hr, _⟩
+    · simp only [evWrites, List.append_nil] at hj2
+      have ok3 : (callClose plan (call plan (call plan m .flush).2 .fsync).2).1 = none := by
+        simp only [callClose, hp]
+        exact exe_close_ok _ (step_ok_open fs0 _ _ W hj2 _ rfl (by simp) (Or.inr (Or.inr (Or.inl rfl))))
+      simp [ok3, ok2]
+    · exact absurd ok2 hr
+  · exact absurd ok1 hr
+
+theorem call_pass_dest (plan : Plan) (m : M) (ev : Ev) (hp : plan m.n = .pass) (s s' : St)
+    (hs : s.step ev = some s') (hpub : s'.published = false) :
+    (call plan m ev).2.fs.dir.dest = m.fs.dir.dest := by
+  simp only [call, hp, exe]
+  split
+  · rfl
+  · rename_i fs' hf
+    exact (step_dest s s' m.fs fs' ev hs hpub hf).1
+
+theorem publish_ok (cfg : Cfg) (fs0 : FS) (plan : Plan) (hp : ∀ k, plan k = .pass) (m : M) (W : Bytes)
+    (h : J fs0 m ⟨.part, false, false, false⟩ W) (hd : cfg.overwrite = true ∨ m.fs.dir.dest = none) :
+    (publish cfg plan m).1 = .ok := by
+  unfold publish
+  cases how : cfg.overwrite with
+  | true =>
+    simp only [if_true]
+    have ok1 := call_pass_ok plan m .renamePartDest (hp _) (step_ok_part fs0 m _ W h _ (Or.inl rfl) (Or.inr (Or.inl rfl)))
+    cases hcall : call plan m .renamePartDest with
+    | mk r1 m1 => rw [hcall] at ok1; simp only at ok1; subst ok1; rfl
+  | false =>
+    simp only [Bool.false_eq_true, if_false]
+    have hdn : m.fs.dir.dest = none := by
+      rcases hd with h | h
+      · simp [how] at h
+      · exact h
+    have ok1 := call_pass_ok plan m .linkPartDest (hp _) (step_ok_part fs0 m _ W h _ (Or.inl rfl) (Or.inr (Or.inr (Or.inr ⟨rfl, hdn⟩))))
+    have hs1 : (St.mk .part false false false).step .linkPartDest = some ⟨.linked, false, false, false⟩ := by simp [St.step]
+    obtain ⟨hc1, _⟩ := J_call fs0 plan m _ _ W .linkPartDest h hs1
+    cases hcall : call plan m .linkPartDest with
+    | mk r1 m1 =>
+      rw [hcall] at ok1 hc1; simp only at ok1; subst ok1
+      rcases hc1 with ⟨_, hj1, _⟩ | ⟨hr, _⟩
+      · simp only [evWrites, List.append_nil] at hj1
+        dsimp only
+        have ok2 := call_pass_ok plan m1 .unlinkPart (hp _) (step_ok_part fs0 m1 _ W hj1 _ (Or.inr rfl) (Or.inl rfl))
+        cases hcall2 : call plan m1 .unlinkPart with
+        | mk r2 m2 => rw [hcall2] at ok2; simp only at ok2; subst ok2; rfl
+      · simp at hr
+
+/-! ### a plan without `appear` never lets the environment act -/
+
+def NoEnv (plan : Plan) : Prop := ∀ k, plan k ≠ .appear
+
+theorem callClose_envDone (plan : Plan) (m : M) (hp : NoEnv plan) : (callClose plan m).2.envDone = m.envDone := by
+  unfold callClose
+  cases h : plan m.n with
+  | fail e => dsimp only; split <;> rfl
+  | pass => simp only [exe]; split <;> rfl
+  | appear => exact absurd h (hp m.n)
+
+theorem callStat_envDone (plan : Plan) (m : M) (hp : NoEnv plan) : (callStat plan m).2.envDone = m.envDone := by
+  unfold callStat
+  cases h : plan m.n with
+  | fail e => dsimp only; split <;> rfl
+  | pass => rfl
+  | appear => exact absurd h (hp m.n)
+
+theorem rmPart_envDone (cfg : Cfg) (plan : Plan) (m : M) (hp : NoEnv plan) : (rmPart cfg plan m).envDone = m.envDone := by
+  unfold rmPart
+  split
+  · exact call_envDone plan m _ hp
+  · rfl
+
+theorem openPartFile_envDone (cfg : Cfg) (plan : Plan) (m : M) (p : Nat) (c : Bool) (hp : NoEnv plan) :
+    (openPartFile cfg plan m p c).2.envDone = m.envDone := by
+  unfold openPartFile
+  have e1 := call_envDone plan m (.openPart true true p) hp
+  cases h1 : call plan m (.openPart true true p) with
+  | mk r1 m1 =>
+    rw [h1] at e1
+    cases r1 with
+    | some e => exact e1
+    | none =>
+      dsimp only
+      have e2 := call_envDone plan m1 .noop hp
+      cases h2 : call plan m1 .noop with
+      | mk r2 m2 =>
+        rw [h2] at e2
+        cases r2 with
+        | some e =>
+          dsimp only
+          rw [rmPart_envDone cfg plan _ hp, call_envDone plan m2 _ hp, e2, e1]
+        | none =>
+          dsimp only
+          cases c with
+          | false => simp only [Bool.false_eq_true, if_false]; rw [e2, e1]
+          | true =>
+            simp only [if_true]
+            have e3 := call_envDone plan m2 (.chmodPart p) hp
+            cases h3 : call plan m2 (.chmodPart p) with
+            | mk r3 m3 =>
+              rw [h3] at e3
+              cases r3 with
+              | some e =>
+                dsimp only
+                rw [rmPart_envDone cfg plan _ hp, callClose_envDone plan m3 hp, e3, e2, e1]
+              | none => dsimp only; rw [e3, e2, e1]
+
+theorem setup_envDone (cfg : Cfg) (plan : Plan) (m : M) (hp : NoEnv plan) :
+    (setup cfg plan m).2.envDone = m.envDone := by
+  unfold setup
+  split
+  · rfl
+  · have key : ∀ (r1 : Option Errno) (m1 : M), m1.envDone = m.envDone →
+        (match r1 with
+          | some e => (some e, m1)
+          | none =>
+            match cfg.perms with
+            | some p => openPartFile cfg plan m1 p true
+            | none =>
+              match callStat plan m1 with
+              | (.error e, m2) => (some e, m2)
+              | (.ok (some mode), m2) => openPartFile cfg plan m2 mode true
+              | (.ok none, m2) => openPartFile cfg plan m2 RW_PERMS false).2.envDone = m.envDone := by
+      intro r1 m1 h1
+      cases r1 with
+      | some e => exact h1
+      | none =>
+        dsimp only
+        cases cfg.perms with
+        | some p => dsimp only; rw [openPartFile_envDone cfg plan _ _ _ hp, h1]
+        | none =>
+          dsimp only
+          have e2 := callStat_envDone plan m1 hp
+          cases h2 : callStat plan m1 with
+          | mk rs m2 =>
+            rw [h2] at e2
+            cases rs with
+            | error e => exact e2.trans h1
+            | ok v =>
+              cases v with
+              | some md => dsimp only; rw [openPartFile_envDone cfg plan _ _ _ hp, e2, h1]
+              | none => dsimp only; rw [openPartFile_envDone cfg plan _ _ _ hp, e2, h1]
+    have hx : ((if cfg.overwritePart && m.fs.dir.part.isSome then call plan m .unlinkPart else (none, m)) : Option Errno × M).2.envDone = m.envDone := by
+      split
+      · exact call_envDone plan m .unlinkPart hp
+      · rfl
+    generalize (if cfg.overwritePart && m.fs.dir.part.isSome then call plan m .unlinkPart else (none, m) : Option Errno × M) = x at hx
+    obtain ⟨r1, m1⟩ := x
+    exact key r1 m1 hx
+
+theorem runWrites_envDone (plan : Plan) (hp : NoEnv plan) : ∀ (ws : List (Bytes × Nat)) (m : M),
+    (runWrites plan m ws).2.envDone = m.envDone
+  | [], m => rfl
+  | w :: ws, m => by
+    simp only [runWrites]
+    have e1 := call_envDone plan m (.write w.1 w.2) hp
+    cases h1 : call plan m (.write w.1 w.2) with
+    | mk r1 m1 =>
+      rw [h1] at e1
+      cases r1 with
+      | some e => exact e1
+      | none => dsimp only; rw [runWrites_envDone plan hp ws m1, e1]
+
+theorem syncClose_envDone (plan : Plan) (m : M) (hp : NoEnv plan) : (syncClose plan m).2.envDone = m.envDone := by
+  unfold syncClose
+  dsimp only
+  rw [callClose_envDone plan _ hp]
+  have e1 := call_envDone plan m .flush hp
+  cases h1 : (call plan m .flush).1 with
+  | some e => exact e1
+  | none => dsimp only; rw [call_envDone plan _ _ hp, e1]
+
+theorem publish_envDone (cfg : Cfg) (plan : Plan) (m : M) (hp : NoEnv plan) : (publish cfg plan m).2.envDone = m.envDone := by
+  unfold publish
+  split
+  · have e1 := call_envDone plan m .renamePartDest hp
+    cases h1 : call plan m .renamePartDest with
+    | mk r1 m1 =>
+      rw [h1] at e1
+      cases r1 with
+      | some e => dsimp only; rw [rmPart_envDone cfg plan _ hp, e1]
+      | none => exact e1
+  · have e1 := call_envDone plan m .linkPartDest hp
+    cases h1 : call plan m .linkPartDest with
+    | mk r1 m1 =>
+      rw [h1] at e1
+      cases r1 with
+      | some e => dsimp only; rw [rmPart_envDone cfg plan _ hp, e1]
+      | none =>
+        dsimp only
+        have e2 := call_envDone plan m1 .unlinkPart hp
+        cases h2 : call plan m1 .unlinkPart with
+        | mk r2 m2 =>
+          rw [h2] at e2
+          cases r2 with
+          | some e => dsimp only; rw [rmPart_envDone cfg plan _ hp, e2, e1]
+          | none => exact e2.trans e1
+
+theorem finish_envDone (cfg : Cfg) (plan : Plan) (m : M) (b : Option Outcome) (hp : NoEnv plan) :
+    (finish cfg plan m b).2.envDone = m.envDone := by
+  unfold finish
+  have e1 := syncClose_envDone plan m hp
+  cases h1 : syncClose plan m with
+  | mk r1 m1 =>
+    rw [h1] at e1
+    cases r1 with
+    | some e => dsimp only; rw [rmPart_envDone cfg plan _ hp, e1]
+    | none =>
+      dsimp only
+      cases b with
+      | some x => dsimp only; rw [rmPart_envDone cfg plan _ hp, e1]
+      | none => dsimp only; rw [publish_envDone cfg plan _ hp, e1]
+
+theorem runSave_envDone (cfg : Cfg) (body : Body) (plan : Plan) (fs0 : FS) (e : Nat) (hp : NoEnv plan) :
+    (runSave cfg body plan fs0 e).2.envDone = false := by
+  unfold runSave
+  have e1 := setup_envDone cfg plan (M.start fs0 e) hp
+  cases h1 : setup cfg plan (M.start fs0 e) with
+  | mk r1 m1 =>
+    rw [h1] at e1
+    cases r1 with
+    | some x => exact e1
+    | none =>
+      dsimp only
+      rw [finish_envDone cfg plan _ _ hp, runWrites_envDone plan hp, e1]
+      rfl
+
+theorem noEnv_of_pass (plan : Plan) (hp : ∀ k, plan k = .pass) : NoEnv plan := by
+  intro k h; rw [hp k] at h; cases h
+
+theorem finish_ok (cfg : Cfg) (fs0 : FS) (plan : Plan) (hp : ∀ k, plan k = .pass) (m : M) (db us : Bool) (W : Bytes)
+    (h : J fs0 m ⟨.part, true, db, us⟩ W) (hd : cfg.overwrite = true ∨ fs0.dir.dest = none) (he : m.envDone = false) :
+    (finish cfg plan m none).1 = .ok := by
+  unfold finish
+  have ok1 := syncClose_ok fs0 plan hp m db us W h
+  obtain ⟨u, hj, h1, _⟩ := syncClose_spec fs0 plan m db us W h
+  have e1 := syncClose_envDone plan m (noEnv_of_pass plan hp)
+  cases hsc : syncClose plan m with
+  | mk r m3 =>
+    rw [hsc] at ok1 hj h1 e1
+    simp only at ok1 hj h1 e1
+    subst ok1
+    obtain ⟨rfl, _⟩ := h1 rfl
+    dsimp only
+    apply publish_ok cfg fs0 plan hp m3 W hj
+    rcases hd with hd | hd
+    · exact Or.inl hd
+    · right
+      have := hj.dest (by simp [St.published])
+      rw [this, e1, he]; simpa using hd
+
+theorem openPartFile_ok (cfg : Cfg) (fs0 : FS) (plan : Plan) (hp : ∀ k, plan k = .pass) (m : M) (p : Nat) (c : Bool)
+    (h : J fs0 m St.init []) (hpart : m.fs.dir.part = none) : (openPartFile cfg plan m p c).1 = none := by
+  unfold openPartFile
+  have ok1 := call_pass_ok plan m (.openPart true true p) (hp _) (by simp [FS.step, FS.openPart, hpart])
+  have hs1 : St.init.step (.openPart true true p) = some ⟨.part, true, false, false⟩ := by simp [St.step, St.init]
+  obtain ⟨hc1, _⟩ := J_call fs0 plan m _ _ [] (.openPart true true p) h hs1
+  cases hcall : call plan m (.openPart true true p) with
+  | mk r1 m1 =>
+    rw [hcall] at ok1 hc1; simp only at ok1; subst ok1
+    rcases hc1 with ⟨_, hj1, _⟩ | ⟨hr, _⟩
+    · simp only [evWrites, List.append_nil] at hj1
+      dsimp only
+      have ok2 := call_pass_ok plan m1 .noop (hp _) ⟨_, rfl⟩
+      have hs2 : (St.mk .part true false false).step .noop = some ⟨.part, true, false, false⟩ := by simp [St.step]
+      obtain ⟨hc2, _⟩ := J_call fs0 plan m1 _ _ [] .noop hj1 hs2
+      cases hcall2 : call plan m1 .noop with
+      | mk r2 m2 =>
+        rw [hcall2] at ok2 hc2; simp only at ok2; subst ok2
+        rcases hc2 with ⟨_, hj2, _⟩ | ⟨hr, _⟩
+        · simp only [evWrites, List.append_nil] at hj2
+          dsimp only
+          cases c with
+          | false => rfl
+          | true =>
+            simp only [if_true]
+            have ok3 := call_pass_ok plan m2 (.chmodPart p) (hp _) (step_ok_part fs0 m2 _ [] hj2 _ (Or.inl rfl) (Or.inr (Or.inr (Or.inl ⟨p, rfl⟩))))
+            cases hcall3 : call plan m2 (.chmodPart p) with
+            | mk r3 m3 => rw [hcall3] at ok3; simp only at ok3; subst ok3; rfl
+        · simp at hr
+    · simp at hr
+
+theorem setup_ok (cfg : Cfg) (fs0 : FS) (e : Nat) (plan : Plan) (hp : ∀ k, plan k = .pass)
+    (hpart : fs0.dir.part = none ∨ cfg.overwritePart = true)
+    (hdest : fs0.dir.dest = none ∨ cfg.overwrite = true) :
+    (setup cfg plan (M.start fs0 e)).1 = none := by
+  have h0 := J_start fs0 e
+  unfold setup
+  have hnr : ((M.start fs0 e).fs.dir.dest.isSome && !cfg.overwrite) = false := by
+    rcases hdest with h | h <;> simp [M.start, h]
+  simp only [hnr, Bool.false_eq_true, if_false]
+  -- state after the optional removal of a stale part file
+  have stale : ∃ m1, (if cfg.overwritePart && (M.start fs0 e).fs.dir.part.isSome then call plan (M.start fs0 e) .unlinkPart
+        else (none, M.start fs0 e)) = (none, m1) ∧ J fs0 m1 St.init [] ∧ m1.fs.dir.part = none := by
+    by_cases hc : (cfg.overwritePart && (M.start fs0 e).fs.dir.part.isSome) = true
+    · simp only [hc, if_true]
+      have hsome : ∃ i, (M.start fs0 e).fs.dir.part = some i := by
+        simp at hc; cases h : (M.start fs0 e).fs.dir.part with
+        | none => simp [h] at hc
+        | some i => exact ⟨i, rfl⟩
+      obtain ⟨i, hi⟩ := hsome
+      have ok1 := call_pass_ok plan (M.start fs0 e) .unlinkPart (hp _) (by simp [FS.step, FS.unlinkPart, hi])
+      have hs1 : St.init.step .unlinkPart = some St.init := by simp [St.step, St.init]
+      obtain ⟨hc1, _⟩ := J_call fs0 plan (M.start fs0 e) _ _ [] .unlinkPart h0 hs1
+      cases hcall : call plan (M.start fs0 e) .unlinkPart with
+      | mk r1 m1 =>
+        rw [hcall] at ok1 hc1; simp only at ok1; subst ok1
+        rcases hc1 with ⟨_, hj1, _, ht1⟩ | ⟨hr, _⟩
+        · simp only [evWrites, List.append_nil] at hj1
+          exact ⟨m1, rfl, hj1, (hj1.pinit rfl).2 (by simp only at ht1; simp [ht1])⟩
+        · simp at hr
+    · simp only [hc, if_false]
+      refine ⟨_, rfl, h0, ?_⟩
+      rcases hpart with h | h
+      · exact h
+      · simp [h] at hc; simpa [M.start] using hc
+  obtain ⟨m1, hst1, hj1, hp1⟩ := stale
+  rw [hst1]
+  dsimp only
+  cases cfg.perms with
+  | some p => exact openPartFile_ok cfg fs0 plan hp m1 p true hj1 hp1
+  | none =>
+    dsimp only
+    have hstat : callStat plan m1 = (.ok m1.fs.destMode, { m1 with n := m1.n + 1 }) := by
+      simp [callStat, hp]
+    rw [hstat]
+    have hj2 : J fs0 { m1 with n := m1.n + 1 } St.init [] := J_congr _ _ _ _ _ hj1 rfl rfl rfl rfl
+    cases m1.fs.destMode with
+    | some md => exact openPartFile_ok cfg fs0 plan hp _ md true hj2 hp1
+    | none => exact openPartFile_ok cfg fs0 plan hp _ RW_PERMS false hj2 hp1
+
+/-- a save with nothing in its way and no fault completes -/
+theorem runSave_nofault_ok (cfg : Cfg) (fs0 : FS) (e : Nat) (body : Body) (plan : Plan) (hp : ∀ k, plan k = .pass)
+    (hpart : fs0.dir.part = none ∨ cfg.overwritePart = true)
+    (hdest : fs0.dir.dest = none ∨ cfg.overwrite = true) (hr : body.raises = false) :
+    (runSave cfg body plan fs0 e).1 = .ok := by
+  unfold runSave
+  have ok1 := setup_ok cfg fs0 e plan hp hpart hdest
+  obtain ⟨sok, _⟩ := setup_spec cfg fs0 e plan
+  have e1 := setup_envDone cfg plan (M.start fs0 e) (noEnv_of_pass plan hp)
+  cases hsetup : setup cfg plan (M.start fs0 e) with
+  | mk r1 m1 =>
+    rw [hsetup] at ok1 sok e1
+    simp only at ok1 sok e1
+    subst ok1
+    dsimp only
+    obtain ⟨k1, _⟩ := sok rfl
+    have ok2 := runWrites_ok fs0 plan hp body.writes m1 false false [] k1
+    obtain ⟨db', us', W', w1, _⟩ := runWrites_spec fs0 plan body.writes m1 false false [] k1
+    have e2 := runWrites_envDone plan (noEnv_of_pass plan hp) body.writes m1
+    have hb : blockOutcome body (runWrites plan m1 body.writes).1 = none := by simp [blockOutcome, ok2, hr]
+    rw [hb]
+    exact finish_ok cfg fs0 plan hp _ db' us' W' w1 (by rcases hdest with h | h; exact Or.inr h; exact Or.inl h)
+      (by rw [e2, e1]; rfl)
+
+/-! ### small facts used by the property theorems -/
+
+theorem res_pub {cfg fs0 e body plan o m s W} (r : Res cfg fs0 e body plan o m s W) :
+    s.published = m.published := by
+  have := (published_run m.tr St.init s r.j.run).1
+  have hinit : St.init.published = false := by decide
+  rw [hinit, Bool.false_or] at this
+  exact this
+
+theorem old_inode {fs0 : FS} {m : M} {s : St} {W : Bytes} (h : J fs0 m s W) (i : Nat)
+    (hi : i < fs0.inodes.length) : m.fs.inodes[i]? = fs0.inodes[i]? := by
+  obtain ⟨ph, op, db, us⟩ := s
+  have hinv := h.inv
+  cases ph
+  · simp only [GInv] at hinv; rw [hinv.1]
+  all_goals
+    obtain ⟨x, hx, _⟩ := ginv_shape _ _ _ m.fs W hinv (by simp)
+    rw [hx, List.getElem?_append_left hi]
+
+theorem call_open_blocked (plan : Plan) (m : M) (p : Nat) (i : Nat) (h : m.fs.dir.part = some i) :
+    (call plan m (.openPart true true p)).1 ≠ none ∧ (call plan m (.openPart true true p)).2.tr = m.tr ∧
+    (plan m.n = .pass → (call plan m (.openPart true true p)).1 = some EEXIST) := by
+  unfold call
+  cases hp : plan m.n with
+  | fail x => simp
+  | pass => simp [exe, FS.step, FS.openPart, h]
+  | appear =>
+    have : (m.env .appear).fs.dir.part = some i := by
+      unfold M.env; split <;> simp [FS.setDir, h]
+    have ht : (m.env .appear).tr = m.tr := (env_fields m .appear).2.1
+    simp [exe, FS.step, FS.openPart, this, ht]
+
+theorem openPartFile_blocked (cfg : Cfg) (plan : Plan) (m : M) (p : Nat) (c : Bool) (i : Nat)
+    (h : m.fs.dir.part = some i) :
+    (openPartFile cfg plan m p c).1 ≠ none ∧ (openPartFile cfg plan m p c).2.tr = m.tr ∧
+    (plan m.n = .pass → (openPartFile cfg plan m p c).1 = some EEXIST) := by
+  obtain ⟨a, b, c'⟩ := call_open_blocked plan m p i h
+  unfold openPartFile
+  cases hc : call plan m (.openPart true true p) with
+  | mk r1 m1 =>
+    rw [hc] at a b c'
+    cases r1 with
+    | none => simp at a
+    | some x => exact ⟨by simp, b, c'⟩
 
 end C05
